@@ -400,6 +400,30 @@ def _rand_case(rng: random.Random, idx: int, traditional: bool = False, allow_en
     return case_of(p.name, p, ("random",), only=[msgs[-1].name] + ([msgs[0].name] if len(msgs) > 1 else []))
 
 
+def f_naming() -> List[Case]:
+    """schemas about NAMES (used by C10 / C15 only: the runtime checks find their entry points by the plain scheme):
+    importer and imported file with different / one-sided c.name_prefix, acronym runs in PascalCase names"""
+    out: List[Case] = []
+    U = lambda n: TBase("uint", n)
+    I = lambda n: TBase("int", n)
+    for tag, main_pre, lib_pre in (("both", "app_", "lib_"), ("lib_only", "", "lib_"), ("main_only", "app_", "")):
+        color = _e("Color", 3, [0, 1, 5])
+        point = Message("Point", [Field(I(10), "x", 1), Field(I(10), "y", 2)])
+        stamp = Alias("Stamp", I(48))
+        lib = Proto("shared", [color, stamp, point], [], [("c.name_prefix", f'"{lib_pre}"')] if lib_pre else [])
+        m = Message("Scene", [Field(TRef(color, "shared.Color"), "c", 1), Field(TRef(point, "shared.Point"), "p", 2), Field(TRef(stamp, "shared.Stamp"), "t", 3), Field(TArray(TRef(point, "shared.Point"), 2), "ps", 4), Field(U(3), "z", 5)])
+        p = Proto(f"imp_prefix_{tag}", [m], [Import(lib, None)], [("c.name_prefix", f'"{main_pre}"')] if main_pre else [])
+        out.append(case_of(p.name, p, ("import", "prefix")))
+    tls = Message("TLSConfig", [Field(U(4), "version", 1), Field(TBase("bool"), "strict", 2)])
+    http = Message("HTTPServer", [Field(TRef(tls), "tls", 1), Field(U(16), "port", 2)], nested=[tls])
+    gps = Message("GPSFix", [Field(I(28), "lat", 1), Field(I(29), "lon", 2), Field(TRef(http), "server", 3)])
+    rgb = Alias("RGBColor", TArray(U(8), 3))
+    uid = _e("UserID", 4, [0, 3, 9])
+    p = Proto("acronyms", [rgb, uid, http, gps, Message("M", [Field(TRef(gps), "fix", 1), Field(TRef(rgb), "color", 2), Field(TRef(uid), "uid", 3)])])
+    out.append(case_of(p.name, p, ("names",)))
+    return out
+
+
 def f_shape(quick: bool, seed: int, traditional: bool = False) -> List[Case]:
     cases = f_shape_core()
     rng = random.Random(1000003 * (seed + 1))
